@@ -232,6 +232,8 @@ def run_c13(ctx):
     # the rules hold for the schema as a whole: a later load that breaks a rule for a type loaded earlier is refused too
     for k, prefixes in ([(1, ["p1", "p2", "p3", "p4"])] if ctx.tier == "quick" else [(2, ["p1", "p2", "p3", "p4"])]):
         loader_histories(ctx, loader_cfg(k, prefixes, devs, "FALSE"), "histories-%d-%s" % (k, "".join(prefixes)), {"verdict", "schema"}, devs)
+    # the rules also hold for types built in Go and handed to Root.AddTypes (names that SDL text cannot even spell)
+    loader_histories(ctx, loader_cfg(1, ["p0", "p1"], devs, "FALSE", vias=("sdl", "types"), typesonly=True), "addtypes-1-p0p1", {"verdict", "schema"}, devs)
     record_and_judge(ctx, devs, 300 if ctx.tier == "quick" else 4000)
     muts = sorted({v["tag"].split(":", 1)[1] for v in res.vecs})
     ctx.extra["mutation_kinds"] = muts
